@@ -83,13 +83,13 @@ def bgzf_line_at(path, voffset, blocks=None):
             break
     if not started:
         raise ValueError("virtual offset does not address a block start")
-    return buf.split(b"\n", 1)[0].decode()
+    return buf.split(b"\n", 1)[0].rstrip(b"\r").decode()
 
 
 def plain_line_at(path, off):
     with open(path, "rb") as f:
         f.seek(off)
-        return f.readline().rstrip(b"\n").decode()
+        return f.readline().rstrip(b"\r\n").decode()
 
 
 def line_at(path, off, bgzf):
@@ -113,6 +113,48 @@ def eol_for(key):
     """input files end with a newline in two cases of three; in the third the last record is not newline-terminated
     (valid, and what some pipelines produce) - chosen by a stable hash of the case id"""
     return "" if zlib.crc32(str(key).encode()) % 3 == 0 else "\n"
+
+
+def join_lines(lines, key):
+    """the text of an input file: LF-terminated lines (2 of 4 cases), LF without a terminator after the last record
+    (1 of 4), or Windows line ends throughout (1 of 4) - chosen by a stable hash of the case id"""
+    h = zlib.crc32(("j" + str(key)).encode()) % 4
+    if h == 0:
+        return "\n".join(lines)
+    if h == 1:
+        return "\r\n".join(lines) + "\r\n"
+    return "\n".join(lines) + "\n"
+
+
+def align_starts(lines, boundaries, pad=600):
+    """Give every line a trailing padding field (zp:Z:ppp...) and shorten paddings so that, for each boundary, some
+    record starts EXACTLY at that uncompressed byte offset (LF-separated). Readers that work in chunks of 64 KiB,
+    1 MiB, ... have their seams there."""
+    lines = [l + "\tzp:Z:" + "p" * pad for l in lines]
+    for bnd in sorted(boundaries):
+        off = 0
+        for j, l in enumerate(lines):
+            if off >= bnd and j > 0:
+                diff = off - bnd
+                k = j - 1
+                while diff > 0 and k >= 0:
+                    avail = len(lines[k]) - len(lines[k].rstrip("p")) - 1
+                    take = min(avail, diff) if avail > 0 else 0
+                    if take:
+                        lines[k] = lines[k][: len(lines[k]) - take]
+                        diff -= take
+                    k -= 1
+                break
+            off += len(l.encode()) + 1
+    return lines
+
+
+def starts_of(lines):
+    off, out = 0, set()
+    for l in lines:
+        out.add(off)
+        off += len(l.encode()) + 1
+    return out
 
 
 def read_text(path):
@@ -195,6 +237,10 @@ def split_gfa(text):
 # --------------------------------------------------------------------------- running gaftools
 
 
+SALT = None
+CASE = None      # id of the case being run (set by the harness): makes the choice of invocation variant differ from case to case
+
+
 class Timeout(Exception):
     pass
 
@@ -220,10 +266,60 @@ class _Capture(io.StringIO):
         pass
 
 
-def run_cli(argv, timeout=20):
+def run_cli(argv, timeout=20, cwd_rel=None):
     """Run `gaftools <argv>` in-process. Returns dict(status, code, exc, stdout).
     status: 'ok' | 'exit' (SystemExit with non-zero code) | 'exception' | 'timeout'"""
     from gaftools.__main__ import main
+
+    # one call in four that names an output file with -o is made WITHOUT it instead (the documented default is standard
+    # output) and the captured text is put into the file afterwards: both ways of asking for the output are exercised
+    # by every check, chosen by a stable hash of the command line (directory names, which are random, left out)
+    argv = list(argv)
+    to_file = None
+    if argv and argv[0] in ("view", "stat", "phase", "find_path", "realign") and argv.count("-o") == 1:
+        # SALT: set by a check that compares several runs of one command with each other (C17), so that all of them
+        # are made in the same form
+        key = (SALT + " " + " ".join(a for a in argv if a.startswith("-") or a == argv[0])) if SALT is not None else (CASE or "") + " ".join(os.path.basename(a) for a in argv)
+        if zlib.crc32(key.encode()) % 4 == 0:
+            k = argv.index("-o")
+            to_file = argv[k + 1]
+            del argv[k : k + 2]
+
+    # one call in four that names an output file finds a file of an earlier run at that place (to be replaced, not
+    # appended to or trusted)
+    for flag in ("-o", "--outgaf", "--outind"):
+        if argv and argv[0] in ("view", "stat", "phase", "find_path", "realign", "sort", "index") and argv.count(flag) == 1:
+            target = argv[argv.index(flag) + 1]
+            key = (SALT or CASE or "") + flag + " ".join(os.path.basename(a) for a in argv)
+            if zlib.crc32(key.encode()) % 4 == 1 and os.path.isdir(os.path.dirname(target) or ".") and not os.path.exists(target):
+                if flag == "--outind" or argv[0] == "index":
+                    with open(target, "wb") as f:
+                        pickle.dump({"stale_contig": [0, 0]}, f)
+                elif argv[0] == "stat":
+                    with open(target, "w") as f:      # the report of an earlier run on another file
+                        f.write("Total alignments: 999\n\tPrimary: 990\n\tSecondary: 9\nReads with at least one alignment: 990\nTotal aligned bases: 12345\n"
+                                "Average mapping quality: 1.0\nAverage highest sequence identity: 0.5\nAverage highest map ratio: 0.5\n"
+                                "Cigar string statistics:\n\tTotal deletion regions: 77 (7 >50bps)\n\tTotal insertion regions: 77 (7 >50bps)\n"
+                                "\tTotal substitution regions: 77 (7 >50bps)\n\tTotal match regions: 77 (7 >50bps)\nTotal perfect alignments (exact match): 7\n"
+                                "* Numbers are based on primary alignments and the ones with >0 mapping quality\n")
+                else:
+                    with open(target, "w") as f:
+                        f.write("stale_read\t10\t0\t10\t+\t>stale\t10\t0\t10\t10\t10\t60\n" * 3)
+                    if flag == "--outgaf" and "--outind" not in argv:
+                        with open(target + ".gsi", "wb") as f:
+                            pickle.dump({"stale_contig": [0, 0]}, f)
+
+    # one call in three is made from inside the data directory with bare relative file names (when all files named on
+    # the command line live under the directory of the first one)
+    restore_cwd = None
+    paths = [a for a in argv[1:] if os.path.isabs(a)]
+    if paths:
+        base = os.path.dirname(paths[0])
+        key = (SALT or CASE or "") + "cwd" + " ".join(os.path.basename(a) for a in argv)
+        if all(a.startswith(base + os.sep) for a in paths) and (cwd_rel if cwd_rel is not None else zlib.crc32(key.encode()) % 3 == 2):
+            restore_cwd = os.getcwd()
+            argv = [os.path.relpath(a, base) if os.path.isabs(a) else a for a in argv]
+            os.chdir(base)
 
     root = logging.getLogger()
     saved_handlers = root.handlers[:]
@@ -246,7 +342,12 @@ def run_cli(argv, timeout=20):
     finally:
         res["stdout"] = sys.stdout.getvalue()
         res["stderr"] = sys.stderr.getvalue()[-2000:]
+        if to_file is not None:
+            with open(to_file, "w", encoding="utf-8") as f:
+                f.write(res["stdout"])
         sys.stdout, sys.stderr = old_out, old_err
+        if restore_cwd is not None:
+            os.chdir(restore_cwd)
         for h in root.handlers[:]:
             if h not in saved_handlers:
                 root.removeHandler(h)
